@@ -97,6 +97,22 @@ func RoundTrip(s string) string {
 	return string(b)
 }
 
+func Runes(s string) []rune {
+	return []rune(s)
+}
+
+func RuneTrip(s string) string {
+	return string([]rune(s))
+}
+
+func RunesBack(s string) string {
+	var r []rune
+	for _, c := range s {
+		r = append(r, c)
+	}
+	return string(r)
+}
+
 func FromRune(r rune) string {
 	return string(r)
 }
@@ -261,7 +277,7 @@ func c13run(r *report.Run) {
 		maxChunks = 4
 	}
 	strs := c13strings(maxChunks)
-	r.Rule(fmt.Sprintf("all %d strings built from <=%d chunks of {a, é, €, 🐐, \\xff, \\xc3} x len, every index, every slice (4 spellings), range (3 forms), []byte round trip, all ordered pairs x 6 comparisons, concatenation with aliases, byte arithmetic; string(rune) for 12 boundary runes; every escape sequence in interpreted/raw/rune literals; non-trivial = case involving a multi-byte or invalid sequence", len(strs), maxChunks))
+	r.Rule(fmt.Sprintf("all %d strings built from <=%d chunks of {a, é, €, 🐐, \\xff, \\xc3} x len, every index, every slice (4 spellings), range (3 forms), []byte round trip, []rune conversion and round trip (invalid bytes become U+FFFD), all ordered pairs x 6 comparisons, concatenation with aliases, byte arithmetic; string(rune) for 12 boundary runes; every escape sequence in interpreted/raw/rune literals; non-trivial = case involving a multi-byte or invalid sequence", len(strs), maxChunks))
 	r.Assume("Go's own string operations in the harness and strconv.Unquote/UnquoteChar are the oracle", "strings reach the script as host values (VM.Call arguments) and as source literals")
 	files := goat.FS(map[string]string{"st/st.go": c13lib})
 	newVM := func() *goat.M {
@@ -344,6 +360,13 @@ func c13run(r *report.Run) {
 		}
 		check(m, "Bytes", S, nil, c13ints("uint8", bs...))
 		check(m, "RoundTrip", S, nil, "string:"+strconv.Quote(s))
+		var rs []int
+		for _, c := range []rune(s) {
+			rs = append(rs, int(c))
+		}
+		check(m, "Runes", S, nil, c13ints("int32", rs...))
+		check(m, "RuneTrip", S, nil, "string:"+strconv.Quote(string([]rune(s))))
+		check(m, "RunesBack", S, nil, "string:"+strconv.Quote(string([]rune(s))))
 		check(m, "MutateCopy", S, nil, "string:"+strconv.Quote(s))
 		check(m, "Print", S, nil, strconv.Quote(s+"\n"))
 		for _, t := range strs {
